@@ -20,6 +20,7 @@ import (
 	"github.com/google/martian/v3/messageview"
 
 	"verif/harness/internal/core"
+	"verif/harness/internal/golib"
 	"verif/harness/internal/msggen"
 )
 
@@ -199,7 +200,12 @@ func reparse(a *msggen.Abs, snap []byte, orig head, full bool) string {
 
 func (e *ex) Do(op string) core.Result {
 	t := strings.Fields(op)
+	if r, ok := golib.DoH1(op); ok && t[0] != "h1.resnap" { // the HTTP/1 codec ops (reader inside the model)
+		return r
+	}
 	switch t[0] {
+	case "h1.resnap":
+		return e.resnap()
 	case "snap":
 		return e.snap(t)
 	case "sections":
